@@ -255,6 +255,33 @@ func genC01(r *rand.Rand, tier string, env *Env) []Case {
 		args := append(append([][]byte{}, empty...), []byte(prog))
 		cases = append(cases, Case{Kind: "same-thing-twice", Ops: []Op{{"parse.run", args[6:]}, {"gen.run", args}}, Oracles: []Op{{"c01.language", args}}})
 	}
+	cases = append(cases, sharedDefinitionCases("c01.language")...)
+	return cases
+}
+
+// sharedDefinitionCases: include-except whose include file defines names — nested, in either alphabetical order of the
+// referring and the referred-to name — and whose exclusion files spell the entries to remove with those names, with
+// and without definitions of their own; the same for an include file included by a file with definitions.
+func sharedDefinitionCases(oracle string) []Case {
+	empty := [][]byte{{}, {}, {}, {}, {}, {}}
+	var cases []Case
+	for _, names := range [][2]string{{"sep", "word"}, {"zsep", "aword"}, {"a", "b"}, {"b", "a"}} {
+		sep, word := names[0], names[1]
+		inc := "##!> define " + sep + " [-_]\n##!> define " + word + " foo{{" + sep + "}}bar\n{{" + word + "}}1\n{{" + word + "}}2\nplain\n"
+		inc2 := "##!> define " + word + " foo{{" + sep + "}}bar\n##!> define " + sep + " [-_]\n{{" + word + "}}1\n{{" + word + "}}2\nplain\n"
+		for vi, incText := range []string{inc, inc2} {
+			for xi, exc := range []string{"{{" + word + "}}1\n", "##! no definitions here\n\n{{" + word + "}}1\n", "##!> define other q\n{{" + word + "}}1\n", "foo{{" + sep + "}}bar1\n", "foo[-_]bar1\n"} {
+				files := [][]byte{[]byte("i"), []byte("words.ra"), []byte(incText), []byte("e"), []byte("notone.ra"), []byte(exc), []byte("e"), []byte("nothing.ra"), []byte("##! nothing\n")}
+				for pi, prog := range []string{"##!> include-except words notone\nlast\n", "##!> include-except words nothing notone\n", "##!> assemble\n##!> include-except words notone nothing\n##!=>\nz\n##!<\n"} {
+					if (vi+xi+pi)%2 == 1 && xi > 1 {
+						continue
+					}
+					args := append(append(append([][]byte{}, empty...), []byte(prog)), files...)
+					cases = append(cases, Case{Kind: "shared-definitions", Ops: []Op{{"gen.run", args}}, Oracles: []Op{{oracle, args}}})
+				}
+			}
+		}
+	}
 	return cases
 }
 
